@@ -264,7 +264,7 @@ func (r *Reconciler) commitChange(ctx context.Context, transaction *configapi.Tr
 			if err := r.updateConfigurationStatus(ctx, configuration); err != nil {
 				return controller.Result{}, false, err
 			}
-			return controller.Result{}, true, nil
+			return requeueNext(transaction), true, nil
 		}
 
 		// If validation fails any target, mark the Proposal FAILED.
@@ -287,7 +287,7 @@ func (r *Reconciler) commitChange(ctx context.Context, transaction *configapi.Tr
 			if err := r.updateConfigurationStatus(ctx, configuration); err != nil {
 				return controller.Result{}, false, err
 			}
-			return controller.Result{}, true, nil
+			return requeueNext(transaction), true, nil
 		}
 
 		// If validation is successful, mark the Proposal VALIDATED.
@@ -326,10 +326,22 @@ func (r *Reconciler) commitChange(ctx context.Context, transaction *configapi.Tr
 			if err := r.updateConfigurationStatus(ctx, configuration); err != nil {
 				return controller.Result{}, false, err
 			}
-			return controller.Result{}, true, nil
+			return requeueNext(transaction), true, nil
 		}
+		return requeueNext(transaction), true, nil
 	}
 	return controller.Result{}, false, nil
+}
+
+// requeueNext asks for the next transaction of the log to be reconciled: it may have been waiting
+// for this one.
+func requeueNext(transaction *configapi.Transaction) controller.Result {
+	return controller.Result{
+		Requeue: controller.NewID(configapi.TransactionID{
+			Target: transaction.ID.Target,
+			Index:  transaction.ID.Index + 1,
+		}),
+	}
 }
 
 func (r *Reconciler) applyChange(ctx context.Context, transaction *configapi.Transaction, configuration *configapi.Configuration) (controller.Result, bool, error) {
@@ -386,7 +398,7 @@ func (r *Reconciler) applyChange(ctx context.Context, transaction *configapi.Tra
 			if err := r.updateConfigurationStatus(ctx, configuration); err != nil {
 				return controller.Result{}, false, err
 			}
-			return controller.Result{}, true, nil
+			return requeueNext(transaction), true, nil
 		}
 
 		configuration.Applied.Target = transaction.ID.Index
@@ -481,7 +493,7 @@ func (r *Reconciler) applyChange(ctx context.Context, transaction *configapi.Tra
 				if err := r.updateConfigurationStatus(ctx, configuration); err != nil {
 					return controller.Result{}, false, err
 				}
-				return controller.Result{}, true, nil
+				return requeueNext(transaction), true, nil
 			}
 		}
 
@@ -522,7 +534,7 @@ func (r *Reconciler) applyChange(ctx context.Context, transaction *configapi.Tra
 			if err := r.updateConfigurationStatus(ctx, configuration); err != nil {
 				return controller.Result{}, false, err
 			}
-			return controller.Result{}, true, nil
+			return requeueNext(transaction), true, nil
 		}
 	}
 	return controller.Result{}, false, nil
